@@ -163,9 +163,14 @@ theorem step_inv (U : List String) (s s' : S) (a : Act) (h : Inv U s) (ha : ActO
     · rename_i c hcur
       split at hs
       · rename_i hc; cases hs
-        obtain ⟨_, _, hp, hnr, _⟩ := hc
-        obtain ⟨b1, b2, b3, ⟨fs, b4, _⟩, _, _, _, _⟩ := hbusy c hcur
-        refine ⟨fun _ => ⟨?_, ?_, hp, by simpa using hnr⟩, fun c' hc' => by simp at hc', hunsolU,
+        obtain ⟨b1, b2, b3, ⟨fs, b4, _⟩, b5, _, _, _⟩ := hbusy c hcur
+        have hpn : s.pending = [] ∧ hasReply s.inflight = false := by
+          rcases hc.2 with hns | ⟨hp, hnr, _⟩
+          · have hsf : c.sent = false := by simpa using hns
+            exact ⟨(b5 hsf).1, (b5 hsf).2.1⟩
+          · exact ⟨hp, by simpa using hnr⟩
+        obtain ⟨hp, hnr⟩ := hpn
+        refine ⟨fun _ => ⟨?_, ?_, hp, hnr⟩, fun c' hc' => by simp at hc', hunsolU,
           fun _ => rfl, htaken, hunsol⟩
         · simp only [remove]
           apply List.filter_eq_nil_iff.mpr
